@@ -825,8 +825,8 @@ def prune(rng, ps):
     return ["aproblem"] + [[k] + v for k, v in secs.items()]
 
 
-COUNTS = {"quick": {"examples": 5, "mini": 26, "medium": 5, "w": 300},
-          "thorough": {"examples": 10 ** 6, "mini": 330, "medium": 60, "w": 4000}}
+COUNTS = {"quick": {"examples": 4, "mini": 16, "medium": 2, "w": 250},
+          "thorough": {"examples": 10 ** 6, "mini": 110, "medium": 16, "w": 4000}}
 
 
 def cases(rng, tier):
@@ -834,8 +834,8 @@ def cases(rng, tier):
     `w` cases run the writer only (many, full size)"""
     n = COUNTS[tier]
     ex = example_cases()
-    if len(ex) > n["examples"]:
-        ex = rng.sample(ex, n["examples"])
+    if len(ex) > n["examples"]:     # quick tier: a seed-dependent sample of the smaller examples
+        ex = rng.sample(sorted(ex, key=lambda c: len(sexp.dumps(c)))[:len(ex) // 2], n["examples"])
     for c in ex:
         yield c
     g = Gen19(rng)
